@@ -11,7 +11,7 @@ const OrdinalsPrefix = "ord"
 
 // Inscribe adds an output to the transaction with an inscription.
 func (tx *Tx) Inscribe(ia *bscript.InscriptionArgs) error {
-	s := *ia.LockingScriptPrefix // deep copy
+	s := append(bscript.Script(nil), *ia.LockingScriptPrefix...) // deep copy
 
 	// add Inscription data
 	// (Example: 	OP_FALSE
